@@ -45,6 +45,16 @@ CLAIMED = {
   text="Exploration of realistic maps incl. degenerate families x settings reachable in the game x prefixes x consistent score states; every f64 field of difficulty, strains and performance is checked.",
   note="AR/OD/HP/CS/hit-window fields are only required to be finite.",
   ref="DESIGN.md §4 C09"),
+ "C12": dict(
+  technique=PBT + " over directly constructed attribute shapes (incl. all-zero counts) and builder specifications with six validity predicates (P1-P6) on generate_state()/calculate()",
+  text="Exploration of all four modes x shapes x origins x every subset of provided values (in range, beyond N, huge) x priorities x passed_objects: misses bounded and kept, fitting results never lowered, remainder filled to exactly N, combo bounded, idempotence, calculate() == explicit generated state.",
+  note="Release-profile arithmetic; P2 is the weakest reading of `keeps every provided hit result that fits`.",
+  ref="DESIGN.md §4 C12"),
+ "C13": dict(
+  technique="exhaustive small-domain enumeration plus " + PBT + " for sampled large shapes; brute-force optimality oracle over every hit-result distribution",
+  text="Every small shape x origin x miss count x priority x critical target grid is enumerated completely and compared with brute force (closest achievable accuracy, exact miss count, exactly N judgements); larger shapes are sampled with the same oracle.",
+  note="Absolute slack 1e-9 on accuracy distances; the enumerated space is stated in the evidence rule.",
+  ref="DESIGN.md §4 C13"),
  "C14": dict(
   technique=PBT + "; independent recount from the converted map's public hit objects plus monotonicity / capping relations over every passed_objects(n)",
   text="Exploration: counts recomputed by the harness from the explicitly converted map are compared with the attributes for the full map and every prefix n in 0..total+3 (and beyond); counts monotone in n; n>total equals unlimited; is_convert flag.",
